@@ -804,25 +804,8 @@ def inlined(prog, fn, max_rounds=4, keep=()):
             h = helpers.get(tid)
             if h is None or len(t[2]) != h.nargs:
                 continue
-            loff = len(d["locals"])
-            boff = len(d["blocks"])
-            d["locals"] = d["locals"] + list(h.locals)
-            d["names"] = d["names"] + [[n, [p[0] + loff, list(p[1])]] for n, p in h.names]
-            line = t[6] if len(t) > 6 else 0
-            blk = d["blocks"][bi]
-            for i, a in enumerate(t[2]):
-                blk["s"].append(["A", [loff + 1 + i, []], ["use", a], line, 0])
-            dest, target = t[3], t[4]
-            blk["t"] = ["goto", boff]
-            for hb in h.blocks:
-                nb = {"s": [_remap(s, loff) for s in hb["s"]], "c": hb.get("c", 0)}
-                if hb["t"][0] == "ret":
-                    if dest is not None:
-                        nb["s"].append(["A", dest, ["use", ["m", [loff, []]]], line, 0])
-                    nb["t"] = ["goto", target] if target is not None else ["unreachable"]
-                else:
-                    nb["t"] = _remap_term(hb["t"], loff, boff, None)
-                d["blocks"].append(nb)
+            from .canon import splice_call
+            splice_call(d, bi, h.d)
             inl.append(h.id)
             did = True
         if not did:
